@@ -94,10 +94,14 @@ SEEDS = {
                             kind="two", sort=False),
     "dt-null-chunkwise": dict(keys=[3, 1, NA, 2, 1, 3], kind="dt", threshold=1),
     "series-index-chunkwise": dict(keys=[3, 1, NA, 2, 1, 3, 2, 2], kind="series", threshold=1),
+    "float-null-chunkwise@lifo": dict(keys=[3, 1, NA, 2, 1, 3, 2, 2], kind="float", threshold=1, lifo=True),
+    "float-partially-monotonic@lifo": dict(keys=[1, 2, 2, 3, 4, 2, NA, 1], kind="float", threshold=1,
+                                           lifo=True),
+    "arrow-prechunked@lifo": dict(keys=[3, 1, 2, 2, 1, 3, 2], kind="arrow", chunks=(3, 2, 2), lifo=True),
 }
 QUICK_SEEDS = ["float-null-contig", "float-null-chunkwise", "float-null-chunkwise-nosort",
                "float-chunkwise-groups-missing", "float-partially-monotonic", "str-null-chunkwise",
-               "arrow-prechunked", "two-keys", "cat-unused", "int-chunkwise"]
+               "arrow-prechunked", "two-keys", "cat-unused", "int-chunkwise", "float-null-chunkwise@lifo"]
 
 U = (4.0, -1.0, 16.0, 2.0, -64.0, 8.0, 32.0, -128.0)
 MASK = (1, 0, 1, 1, 1, 0, 1, 1)
@@ -257,11 +261,17 @@ def bfs(spec, label, cap, full, rot, reduced=False):
         sched.set_schedule(sched.Schedule())
         kw = dict(sort=spec.get("sort", True))
 
-        def fresh():
+        def fresh(reference=False):
+            sched.set_schedule(sched.Schedule([], default=-1 if (lifo and not reference) else 0))
             return GroupBy(build_keys(spec), **kw)
 
-        def apply(g, a):
+        lifo = bool(spec.get("lifo"))
+
+        def apply(g, a, reference=False):
             name, fn, mk = a
+            # '@lifo' seeds: the object under test lives under the all-reversed completion order, the
+            # fresh reference object under FIFO (results and later behaviour must not depend on it)
+            sched.set_schedule(sched.Schedule([], default=-1 if (lifo and not reference) else 0))
             return gbh.call(lambda: fn(g, ctxs[mk], raw, GroupBy))
 
         def build(hist):
@@ -272,7 +282,7 @@ def bfs(spec, label, cap, full, rot, reduced=False):
 
         fresh_out = {}
         for ai, a in enumerate(A):
-            fresh_out[ai] = apply(fresh(), a)
+            fresh_out[ai] = apply(fresh(reference=True), a, reference=True)
             res.execs += 1
         seen = {state_of(fresh()): ()}
         frontier = collections.deque([()])
